@@ -72,7 +72,7 @@ def fb_cases(rng, tier):
                 for est in ests_x:
                     for s in (0, 1, 2):
                         cases.add((w, amt, 546, p, s, est))
-    for _ in range(3000 if tier == "quick" else 200000):
+    for _ in range(3000 if tier == "quick" else 60000):
         w = rng.choice([rng.choice(ws), rng.range(1, 2000), rng.range(400, 4000), rng.range(1, 4000000)])
         amt = rng.choice([rng.choice(amts), rng.below(5000), rng.below(10 ** 6), rng.below(21 * 10 ** 14)])
         p = rng.choice([rng.choice(ps), rng.below(2000), rng.below(10 ** 5), rng.below(U32), rng.below(2 ** 41)])
@@ -91,7 +91,7 @@ def cs_cases(rng, tier):
         for amt in [0, 1, 505, 506, 507, 1000, 10 ** 5, 10 ** 9, 21 * 10 ** 14, 2 ** 55, U64 - 1]:
             for est in [0, 252, 253, 254, 1000, U32 - 1]:
                 cases.add((amt, w, est))
-    for _ in range(500 if tier == "quick" else 50000):
+    for _ in range(500 if tier == "quick" else 20000):
         cases.add((rng.choice([rng.below(3000), rng.below(10 ** 7), rng.below(21 * 10 ** 14)]),
                    rng.choice([rng.range(1, 2000), rng.range(1, 4000000)]), rng.choice([rng.below(2000), rng.below(U32)])))
     return sorted(cases)
@@ -111,7 +111,7 @@ def pf_cases(rng, tier):
         for est in [0, 1, 252, 253, 254, 1000, 1249, 1250, 5000, 858993459, 858993460, U32 - 1]:
             for s in (0, 1, 2):
                 cases.add((prev, s, est))
-    for _ in range(500 if tier == "quick" else 50000):
+    for _ in range(500 if tier == "quick" else 20000):
         cases.add((rng.choice([rng.below(10 ** 4), rng.below(U32), rng.below(U64)]), rng.below(3), rng.choice([rng.below(10 ** 4), rng.below(U32)])))
     return sorted(cases)
 
@@ -138,7 +138,7 @@ def ht_cases(rng, tier):
                 e = cur + off
                 if 0 <= e < U32:
                     cases.append((max(0, cur + off), cur, [(k, e if k in (2, 4, 5) else 0)]))
-    for _ in range(1500 if tier == "quick" else 100000):
+    for _ in range(1500 if tier == "quick" else 30000):
         cur = rng.choice([rng.below(10 ** 6), rng.range(100, 1000), U32 - 1 - rng.below(100)])
         csh = max(0, cur + rng.range(-30, 30))
         cases.append((min(csh, U32 - 1), cur, _rand_inputs(rng, cur, False)))
@@ -147,7 +147,7 @@ def ht_cases(rng, tier):
 
 def lt_cases(rng, tier):
     cases = []
-    for _ in range(600 if tier == "quick" else 50000):
+    for _ in range(600 if tier == "quick" else 15000):
         cur = rng.choice([rng.below(10 ** 6), rng.range(100, 1000)])
         ins = _rand_inputs(rng, cur, rng.chance(3, 4))
         if rng.chance(1, 3):  # equal expiries (what a real aggregated holder-timeout package would need)
@@ -170,7 +170,7 @@ def thr_cases(rng, tier):
 
 def traj_cases(rng, tier):
     cases = [(1200, 1000000, 546, 500, [(2, 500), (0, 500), (1, 2000)])]  # witness of C07_rebroadcast_fee_exact_refuted
-    for _ in range(400 if tier == "quick" else 30000):
+    for _ in range(400 if tier == "quick" else 8000):
         w = rng.choice([rng.range(8, 2000), rng.range(400, 1500), rng.range(8, 400000)])
         amt = rng.choice([rng.range(600, 5000), rng.range(1000, 10 ** 6), rng.range(10 ** 5, 10 ** 9)])
         est0 = rng.choice([253, rng.range(253, 3000), rng.range(253, 10 ** 5)])
@@ -547,7 +547,7 @@ def run(ctx):
         trace_fails, n_trace, recs = onchain.run(ctx)
         if okm and proved:
             try:
-                mdis, ncases, nobs = _with_retry(ctx, lambda: onchain.model_correspondence(ctx, recs, 100 if ctx.tier == "quick" else 3000))
+                mdis, ncases, nobs = _with_retry(ctx, lambda: onchain.model_correspondence(ctx, recs, 100 if ctx.tier == "quick" else 1500))
             except RuntimeError as ex:
                 mdis, ncases, nobs = [{"error": str(ex)[-800:]}], 0, 0
             ctx.coverage["onchain_model_traces"] = {"node_traces": ncases, "observations": nobs}
